@@ -187,6 +187,12 @@ def U_bundle():
     for t in b2_terms:
         insts = [inst("m", "CB2", [("bq", t)])]
         out.append(("U_bundle", design({"CB2": cb2, "Top": mod(top_sigs, insts + tprobes, top_b)}, bundles=bundles)))
+    # the same nested bundle type instantiated several times inside one module: every instance has its own nets
+    for t, t2 in [(Bund("c"), Bund("c2")), (Bund("c2"), Bund("c2")), (Anon(s=Bref("c2", "s"), sub=Bref("c", "sub")), Bund("c3")),
+                  (Anon(s=Sig("u"), sub=Bref("c3", "sub")), Anon(s=Bref("c", "s"), sub=Bref("c2", "sub")))]:
+        insts = [inst("m", "CB2", [("bq", t)]), inst("m2", "CB2", [("bq", t2)])]
+        probes = tprobes + bprobes("c2", B2_LEAVES) + bprobes("c3", B2_LEAVES)
+        out.append(("U_bundle", design({"CB2": cb2, "Top": mod(top_sigs, insts + probes, top_b + [bnd("c2", "B2"), bnd("c3", "B2")])}, bundles=bundles)))
     return out
 
 
@@ -198,8 +204,11 @@ def U_array():
     top_sigs = [sig("u", 1), sig("v", 2), sig("w3", 3), sig("w6", 6)]
     for n in (1, 2, 3):
         a_terms = [Sig("u"), Sig("v"), Sig("w3"), Slc(Sig("w3"), R(0, n)), Cat(*[Sig("u")] * n), Slc(Sig("w6"), R(0, n)),
-                   Slc(Sig("w6"), R(None, None, -1)), Cat(Slc(Sig("v"), I(1)), Sig("v"))]
-        b_terms = [Sig("v"), Sig("w6"), Slc(Sig("w6"), R(0, 2 * n)), Cat(*[Sig("v")] * n), Sig("w3"), Cat(Sig("w3"), Sig("u")), Nc(7)]
+                   Slc(Sig("w6"), R(None, None, -1)), Cat(Slc(Sig("v"), I(1)), Sig("v")),
+                   # reversed and strided slices handed out element by element
+                   Slc(Sig("w6"), R(n - 1, None, -1)), Slc(Sig("w6"), R(0, 2 * n, 2)), Slc(Sig("w6"), R(5, 5 - n, -1))]
+        b_terms = [Sig("v"), Sig("w6"), Slc(Sig("w6"), R(0, 2 * n)), Cat(*[Sig("v")] * n), Sig("w3"), Cat(Sig("w3"), Sig("u")), Nc(7),
+                   Slc(Sig("w6"), R(2 * n - 1, None, -1)), Slc(Sig("w6"), R(1, 1 + 2 * n)) if n < 3 else Slc(Sig("w6"), R(None, None, -1))]
         for ta, tb in itertools.product(a_terms, b_terms):
             insts = [inst("arr", "L12", [("a", ta), ("b", tb)], kind="array", arr=n, k="ext")]
             out.append(("U_array", design({"Top": mod(top_sigs, insts)})))
